@@ -141,6 +141,7 @@ type c10Tx struct {
 	Ins      []c10In      `json:"ins"`
 	Outs     []scriptSpec `json:"outs"`
 	LockTime uint32       `json:"locktime"`
+	PadOuts  int          `json:"pad_outs,omitempty"` // this many outputs with an empty script precede Outs
 }
 
 type c10Preload struct {
@@ -201,6 +202,14 @@ func buildTxs(c c10Case) ([]*builtTx, error) {
 			}
 			b.msg.AddTxIn(wire.NewTxIn(wire.NewOutPoint(&prev, in.Out), script))
 			b.inPsh = append(b.inPsh, pushes)
+		}
+		if t.PadOuts < 0 || t.PadOuts > 70000 {
+			return nil, hbug("pad_outs")
+		}
+		for i := 0; i < t.PadOuts; i++ {
+			b.msg.AddTxOut(wire.NewTxOut(int64(i), nil, wire.TokenData{}))
+			b.outPsh = append(b.outPsh, nil)
+			b.outCls = append(b.outCls, txscript.NonStandardTy)
 		}
 		for oi, os := range t.Outs {
 			var self [][]byte
@@ -598,11 +607,24 @@ func genC10(t *rapid.T) c10Case {
 		c.Flags = 1
 		c.Len, c.K = 2000, 10
 		c.Txs = nil
-		c.Txs = append(c.Txs, c10Tx{Ins: []c10In{{Src: -1, Out: 0, Script: scriptSpec{Cls: "empty"}}},
+		// the relevant output may sit at a high index (the outpoint's index is a 32-bit little-endian number)
+		pad := func() int {
+			switch rapid.IntRange(0, 19).Draw(t, "padcls") {
+			case 0, 1, 2, 3:
+				return rapid.SampledFrom([]int{1, 15, 16, 254, 255, 256, 257}).Draw(t, "pad")
+			case 4:
+				return rapid.SampledFrom([]int{65535, 65536}).Draw(t, "padbig")
+			}
+			return 0
+		}
+		p0 := pad()
+		c.Txs = append(c.Txs, c10Tx{Ins: []c10In{{Src: -1, Out: 0, Script: scriptSpec{Cls: "empty"}}}, PadOuts: p0,
 			Outs: []scriptSpec{{Cls: "pushes", Items: []int{5 % len(c.Pool)}, Enc: []int{0}}}})
 		for k := 1; k <= depth; k++ {
-			c.Txs = append(c.Txs, c10Tx{LockTime: uint32(k), Ins: []c10In{{Src: k - 1, Out: 0, Script: scriptSpec{Cls: "empty"}}},
+			pk := pad()
+			c.Txs = append(c.Txs, c10Tx{LockTime: uint32(k), Ins: []c10In{{Src: k - 1, Out: uint32(p0), Script: scriptSpec{Cls: "empty"}}}, PadOuts: pk,
 				Outs: []scriptSpec{{Cls: "pushes", Items: []int{selfItemBase}, Enc: []int{rapid.IntRange(0, 2).Draw(t, "enc")}}}})
+			p0 = pk
 		}
 		for i := rapid.IntRange(0, 2).Draw(t, "noise"); i > 0; i-- {
 			c.Txs = append(c.Txs, c10Tx{LockTime: uint32(90 + i), Ins: []c10In{{Src: -2, Out: uint32(i), Script: scriptSpec{Cls: "empty"}}},
